@@ -918,7 +918,7 @@ inline void World::apiEnd(Inst& in) {
 		for (auto& r : s.rounds) if (r.cancelled) anyVeto = true;
 		if (anyVeto) stats.add("processing_calls_with_veto");
 		if (anyRedirect) { stats.add("processing_calls_with_redirect"); flags |= F_REDIRECT; }
-		if (s.rounds.size() >= cfg::L) flags |= F_LIMIT;
+		if (s.rounds.size() >= cfg::L) { flags |= F_LIMIT; stats.add2("calls_at_round_limit", fmt("L=%u", cfg::L)); }
 		if (s.survivor.valid) flags |= F_TRANSITION;
 		if (s.op == OP_UPDATE || s.op == OP_REACT) flags |= F_CYCLE;
 		const bool cur0Visible = s.cur0 >= 0 && in.sees(static_cast<unsigned>(s.cur0));
